@@ -197,7 +197,7 @@ class Bfs(object):
                         nxt.append((new, f2, path + mods))
             frontier = nxt
             depth += 1
-        return 'states=%d' % nstates, vs, ntrans
+        return 'states=%d' % nstates, vs, (ntrans, nstates - 1)
 
 
 class Pairs(object):
